@@ -336,3 +336,58 @@ func runWide(c *Case) string {
 	return "wide:" + cnt(fmt.Sprintf("count(/r/a[%d] | /r/a[%d])", i, j)) + "," + cnt(fmt.Sprintf("count(/r/a[%d]/@k | /r/a[%d]/@k)", i, j)) +
 		"," + cnt(fmt.Sprintf("count(/r/(a[%d], a[%d]))", i, j))
 }
+
+// runRxSel: a document <r> of rows <e v=".." p=".."/>; the expression (c.Expr) selects the rows whose v matches
+// (or, with replace, is changed by) the row's own pattern p, the pattern argument being written in one of several
+// forms; extra = "m" (matches) or "r" (replace(@v, P, '#') != @v).  The oracle is Go's regexp on every row.
+func runRxSel(c *Case, tree *Tree) string {
+	var want []string
+	for i, rec := range c.Doc {
+		if rec.Kind != 'e' || rec.Name != "e" {
+			continue
+		}
+		var v, p string
+		for _, a := range rec.Attrs {
+			if a.Name == "v" {
+				v = a.Val
+			}
+			if a.Name == "p" {
+				p = a.Val
+			}
+		}
+		re, err := regexp.Compile(p)
+		if err != nil {
+			return "skip"
+		}
+		hit := re.MatchString(v)
+		if c.Extra == "r" {
+			hit = re.ReplaceAllString(v, "#") != v
+		}
+		if hit {
+			want = append(want, strconv.Itoa(i))
+		}
+	}
+	e, err := xpath.Compile(c.Expr)
+	if err != nil {
+		return "rxsel:cerr~" + strings.Join(want, ",")
+	}
+	got := ""
+	func() {
+		defer func() {
+			if x := recover(); x != nil {
+				got = "panic:" + panicClass(x)
+			}
+		}()
+		rs, ok := drain(e.Select(tree.At(Ref{0, -1}, true)), maxResults)
+		if !ok {
+			got = "diverge"
+			return
+		}
+		var g []string
+		for _, r := range rs {
+			g = append(g, strconv.Itoa(r.I))
+		}
+		got = strings.Join(g, ",")
+	}()
+	return "rxsel:" + got + "~" + strings.Join(want, ",")
+}
